@@ -182,7 +182,13 @@ func main() {
 				sids = append(sids, extra+k)
 			}
 			pc := 90
-			post = append(post, fmt.Sprintf("tick %d", 1))
+			// a frame of every session right after the block: it must reach exactly the members' connections
+			for _, sid := range sortedKeys(pilot.know.sids) {
+				post = append(post, fmt.Sprintf("tick %d", sid))
+			}
+			if len(pilot.know.sids) == 0 {
+				post = append(post, "tick 1")
+			}
 			for _, c := range conns {
 				post = append(post, fmt.Sprintf("handle %d", c), fmt.Sprintf("handle %d", c))
 			}
